@@ -121,6 +121,21 @@ func cmdC14(r *RNG, n int, e *Emitter, args []string) {
 			}
 			clampPt(&p2, lim)
 			clampPt(&p3, lim)
+			if r.Intn(4) == 0 {
+				// nearly collinear far apart: p2 = p1 + k v, p3 = p1 + m v + (d, d) with v = (dx, dx+e): the two products
+				// compared by productsAreEqual exceed 2^54 (every factor below 2^31) and differ by k e d, a few units
+				p1 = clip.Point64{X: -lim + r.Range(0, 5), Y: -lim + r.Range(0, 5)}
+				vx := (int64(1) << 27) - r.Range(40, 4000)
+				vy := vx + r.Range(-30, 30)
+				k, m := r.Range(1, 3), r.Range(4, 7)
+				d := r.Range(-4, 4)
+				p2 = clip.Point64{X: p1.X + k*vx, Y: p1.Y + k*vy}
+				p3 = clip.Point64{X: p1.X + m*vx + d, Y: p1.Y + m*vy + d}
+				if r.Bool() {
+					p1, p3 = p3, p1
+				}
+				e.Count("collinear-near-far")
+			}
 			g := clip.VerifIsCollinear(p1, p2, p3)
 			// also as observed through the public API on a 3-point closed path
 			tr := clip.TrimCollinear64(clip.Path64{p1, p2, p3}, false)
